@@ -70,7 +70,7 @@ func (r *Runner) Exec(line string) (out string, emit bool) {
 		return r.execProto(f[0], f[1:]), true
 	case "chmap":
 		return r.execChmap(f[1:]), true
-	case "mpchk", "mpalpha", "mscan", "mapenc", "mapeq":
+	case "mpchk", "mpalpha", "mscan", "mapenc", "mapeq", "mkalpha", "mkgamma", "mkbin":
 		return r.execMapping(f[0], f[1:]), true
 	case "codec":
 		return r.execCodec(f[1:]), true
